@@ -31,6 +31,25 @@ def R.out (m : R F α) (s : S F) : Log := (m s).2
     | err e => rfl
     | panic => rfl
 
+theorem R.bind_assoc {γ : Type} (m : R F α) (f : α → R F β) (g : β → R F γ) :
+    (m >>= f) >>= g = m >>= fun a => f a >>= g := by
+  funext s
+  show R.bind (R.bind m f) g s = R.bind m (fun a => R.bind (f a) g) s
+  unfold R.bind
+  cases m s with
+  | mk r l =>
+    cases r with
+    | ok a =>
+      simp only
+      cases f a s with
+      | mk r2 l2 =>
+        cases r2 with
+        | ok b => simp only; cases g b s; simp [List.append_assoc]
+        | err e => rfl
+        | panic => rfl
+    | err e => rfl
+    | panic => rfl
+
 theorem R.val_ite (c : Prop) [Decidable c] (x y : R F α) (s : S F) :
     R.val (if c then x else y) s = if c then R.val x s else R.val y s := by
   split <;> rfl
